@@ -199,7 +199,8 @@ func verifC05ThoroughCells64() []int {
 }
 
 func VerifC05_Add64_Cells() {
-	quick := []int{0, 1 + 2*1 + 1, 1 + 2*2, 1 + 2*30 + 1, 1 + 2*(verifC05MaxD+1)}
+	// d = 54, 55 opposite signs: the boundary where the smaller operand stops being more than a sticky bit
+	quick := []int{0, 1 + 2*1 + 1, 1 + 2*2, 1 + 2*30 + 1, 1 + 2*54 + 1, 1 + 2*55 + 1, 1 + 2*(verifC05MaxD+1)}
 	if verifThorough() {
 		quick = verifC05ThoroughCells64()
 	}
